@@ -194,8 +194,12 @@ def type_infer(t, *, forbid_internal=True):
         else:
             raise TypeError
 
-    if context.ctxt.defs and t.is_equals():
-        t_head, t_args = t.lhs.strip_comb()
+    if context.ctxt.defs:
+        # The constant being defined has the given type at the head of the
+        # lhs of a defining equation, and at the head of the conclusion of
+        # an introduction rule.
+        _, t_concl = t.strip_implies()
+        t_head, t_args = (t_concl.lhs if t_concl.is_equals() else t_concl).strip_comb()
         if t_head.is_const() and t_head.name in context.ctxt.defs:
             t_head.T = context.ctxt.defs[t_head.name]
 
